@@ -68,6 +68,8 @@ def add_fault(step, ctl, call, nth, err):
 # ------------------------------------------------------------------------------------------------ Termination.tla
 def prelude(kind):
     """Real lifecycle reconciles that bring the NodeClaim to the model's start state."""
+    if kind == "registered-uninitialized":   # the kubelet registered but never reported Ready: Registered, not Initialized
+        return [{"a": "LcRec"}, {"a": "NodeAppears", "ready": False, "unreg": True}, {"a": "LcRec"}, {"a": "LcRec"}]
     if kind == "registered":
         return [{"a": "LcRec"}, {"a": "NodeAppears", "ready": True, "unreg": True}, {"a": "LcRec"}, {"a": "LcRec"}]
     if kind == "launched":
@@ -108,8 +110,8 @@ def term_from_model(h, rng):
             steps.append({"a": "QRec", "pod": e["pod"]})
         elif a in ("DeleteClaim", "DeleteNode", "InstanceGone", "Restart"):
             steps.append({"a": a})
-        elif a == "InstanceVanishes":
-            steps += [{"a": "InstanceVanishes"}, {"a": "Ready", "ready": False}]
+        elif a == "InstanceVanishes":     # the node controller notices the dead kubelet at once or (1 in 4) not before the end
+            steps += [{"a": "InstanceVanishes"}] + ([{"a": "Ready", "ready": False}] if rng.random() < 0.75 else [])
         elif a in ("PodGone", "PodBinds"):
             steps.append({"a": a, "pod": e["pod"]})
         elif a == "PodStuck":
@@ -150,6 +152,14 @@ def term_paths():
     P.append(("vanished", "registered", term_cfg("p2", False, False), [
         {"a": "InstanceVanishes"}, {"a": "Ready", "ready": False}, {"a": "DeleteNode"}, {"a": "NodeRec"}, {"a": "LcRec"},
         {"a": "NodeRec"}, {"a": "LcRec"}, {"a": "LcRec"}]))
+    # 3b. the instance vanishes but the kubelet's last report still says Ready: no shortcut, full drain, Delete -> NotFound
+    P.append(("vanished-still-ready", "registered", term_cfg("p1", False, False), [
+        {"a": "InstanceVanishes"}, {"a": "DeleteNode"}, {"a": "NodeRec"}, {"a": "LcRec"}, {"a": "QAll"}, {"a": "NodeRec"},
+        {"a": "PodGone", "pod": "p1"}, {"a": "Tick", "d": 6}, {"a": "NodeRec"}, {"a": "VolumeDetach", "pod": "p1"}, {"a": "NodeRec"},
+        {"a": "LcRec"}, {"a": "LcRec"}]))
+    # 3c. registered but never initialized (node not ready), instance vanishes: shortcut, then the claim waits for the node
+    P.append(("uninitialized", "registered-uninitialized", term_cfg("-", True, False), [
+        {"a": "DeleteClaim"}, {"a": "LcRec"}, {"a": "InstanceVanishes"}, {"a": "LcRec"}, {"a": "NodeRec"}, {"a": "LcRec"}, {"a": "LcRec"}]))
     # 4. volume of a pod that cannot be drained (tolerating) does not block; pod stuck terminating
     P.append(("stuck-pod", "registered", term_cfg("p2", False, False), [
         {"a": "PodBinds", "pod": "p2"}, {"a": "DeleteClaim"}, {"a": "LcRec"}, {"a": "NodeRec"}, {"a": "QAll"}, {"a": "NodeRec"},
